@@ -37,7 +37,7 @@ type c06Prog struct {
 	InPlace bool         `json:"inPlace"`    // corrupt the source's entry objects themselves (they were verified by an earlier merge) instead of copies
 }
 
-var c06Kinds = []string{"sig-removed", "key-removed", "sig-other-entry", "sig-flip", "payload-changed", "foreign-key", "foreign-logid", "next-changed", "time-changed"}
+var c06Kinds = []string{"sig-removed", "key-removed", "sig-other-entry", "sig-flip", "payload-changed", "foreign-key", "key-garbage", "key-truncated", "foreign-logid", "next-changed", "time-changed"}
 
 func genC06(t *rapid.T) c06Prog {
 	cfg := sim.GenConfig{MaxReplicas: 3, MaxOps: ev.Scale(24, 50), MinOps: 2, Codecs: []int{0, 1, 2}, AppendBias: 3, NoRebuild: true, WithLoad: true, LargeOneIn: ev.Scale(128, 96)}
@@ -214,6 +214,10 @@ func runC06(tb ev.TB, p c06Prog) ev.Result {
 			c.SetPayload(append([]byte("tampered-"), e.GetPayload()...))
 		case "foreign-key":
 			c.SetKey(world.Identity(5).PublicKey)
+		case "key-garbage":
+			c.SetKey(bytes.Repeat([]byte{0xff}, len(e.GetKey())))
+		case "key-truncated":
+			c.SetKey(append([]byte(nil), e.GetKey()[:len(e.GetKey())/2]...))
 		case "foreign-logid":
 			c.SetLogID("some-other-log")
 		case "next-changed":
@@ -393,7 +397,7 @@ func (a snap) diff(b snap) string {
 
 func TestC06(t *testing.T) {
 	c := ev.Get("C06")
-	c.Rule = "a generated multi-replica program (1-4 writers, default/link-key/legacy codec) builds valid logs; every appended entry must verify and the source must merge into a fresh permissive replica. Then a corruption plan (0..all positions; kinds: signature removed/from another entry/bit-flipped, key removed/foreign, payload/next/time changed after signing, foreign log id) is applied to copies placed in a source log built with NewLog(Entries, Heads), the destination holds another replica's entries and a generated pure access policy (deny by writer / payload prefix / hash set). The harness computes the candidate set itself; if any candidate is invalid or denied the merge must fail and leave the full snapshot (entries, heads, values, published heads, clock, result of a following append) unchanged, otherwise it must succeed with destination ∪ candidates. Also: denied Append returns an error and changes neither entries nor heads. Non-trivial = an invalid candidate that is not a head of the source, with >= 2 candidates; distinct = distinct program."
+	c.Rule = "a generated multi-replica program (1-4 writers, default/link-key/legacy codec) builds valid logs; every appended entry must verify and the source must merge into a fresh permissive replica. Then a corruption plan (0..all positions; kinds: signature removed/from another entry/bit-flipped, key removed/foreign/garbage/truncated, payload/next/time changed after signing, foreign log id) is applied to copies placed in a source log built with NewLog(Entries, Heads), the destination holds another replica's entries and a generated pure access policy (deny by writer / payload prefix / hash set). The harness computes the candidate set itself; if any candidate is invalid or denied the merge must fail and leave the full snapshot (entries, heads, values, published heads, clock, result of a following append) unchanged, otherwise it must succeed with destination ∪ candidates. Also: denied Append returns an error and changes neither entries nor heads. Non-trivial = an invalid candidate that is not a head of the source, with >= 2 candidates; distinct = distinct program."
 	c.Assumptions = []string{"the access controller is a pure function safe for concurrent calls", "an entry with a foreign log id is skipped silently (together with what is only reachable through it), as the statement's first clause says, and is not one of the error-raising kinds"}
 	ev.Check(t, "C06", genC06, runC06)
 }
